@@ -188,6 +188,43 @@ def nan_dropped(case, ctx):
                 raise Violation("%s: %s with NaNs %r, expected %r (signal %r)" % (det, k, got[k], want, raw), bucket="nan:%s:%s" % (det, k))
 
 
+@st.composite
+def _with_nans_chunked(draw, tier):
+    case = draw(_with_nans(tier))
+    raw = case["with_nan"]
+    n = len(raw)
+    # cuts such that every chunk starts and ends with a real sample (the NaN clause holds per chunk)
+    ok = [c for c in range(1, n) if raw[c - 1] is not None and raw[c] is not None]
+    cuts = sorted(set(draw(st.lists(st.sampled_from(ok), max_size=4)))) if ok else []
+    case["cuts"] = cuts
+    return case
+
+
+@subcheck("C03", "nan_chunked", strategy=_with_nans_chunked, quick=2500, thorough=80000, crash_guard=True,
+          doc="NaN clause combined with chunked feeding (every chunk starts and ends with a real sample): values as for the cleaned signal, indices are positions in the ORIGINAL array")
+def nan_chunked(case, ctx):
+    sig = case["signal"]
+    raw = [float("nan") if v is None else v for v in case["with_nan"]]
+    keep = [i for i, v in enumerate(case["with_nan"]) if v is not None]
+    cuts = case["cuts"]
+    if _has_cycle(sig) and cuts:
+        ctx.nontrivial()
+    ctx.label("chunks=%d" % (len(cuts) + 1))
+    edges = [0] + cuts + [len(raw)]
+    chunks = [raw[a:b] for a, b in zip(edges[:-1], edges[1:])]
+    if any(any(x != x for x in c[1:-1]) and len(c) >= 3 and c[-1] == next((y for y in reversed(c[:-1]) if y == y), None) for c in chunks):
+        ctx.label("nan_inside_trailing_plateau")
+    for det in _rf.DETECTORS:
+        clean = _snap(det, sig)
+        with warnings.catch_warnings():
+            warnings.simplefilter("ignore")
+            got = _rf.snapshot(det, _rf.run_chunks(det, chunks))
+        for k in clean:
+            want = clean[k] if k in ("values_from", "values_to", "residuals") else [keep[i] for i in clean[k]]
+            if got[k] != want:
+                raise Violation("%s: %s with NaNs fed in chunks %r: %r, expected %r" % (det, k, chunks, got[k], want), bucket="nanchunk:%s:%s" % (det, k))
+
+
 # ---------------------------------------------------------------- Series index types
 @st.composite
 def _series(draw, tier):
